@@ -716,6 +716,59 @@ func (c *FnCtx) havoc(st *State, objs []types.Object) {
 	}
 }
 
+// havocIn havocs the variables a loop body may modify; a pointer that the body only writes through
+// (never assigns) keeps its nil-ness.
+func (c *FnCtx) havocIn(st *State, objs []types.Object, body ast.Node) {
+	direct := map[types.Object]bool{}
+	mark := func(e ast.Expr) {
+		if id, ok := unparen(e).(*ast.Ident); ok {
+			if o := c.info.ObjectOf(id); o != nil {
+				direct[o] = true
+			}
+		}
+	}
+	ast.Inspect(body, func(n ast.Node) bool {
+		switch x := n.(type) {
+		case *ast.AssignStmt:
+			for _, l := range x.Lhs {
+				mark(l)
+			}
+		case *ast.IncDecStmt:
+			mark(x.X)
+		case *ast.RangeStmt:
+			if x.Key != nil {
+				mark(x.Key)
+			}
+			if x.Value != nil {
+				mark(x.Value)
+			}
+		case *ast.UnaryExpr:
+			if x.Op == token.AND {
+				mark(x.X)
+			}
+		}
+		return true
+	})
+	type keep struct {
+		o   types.Object
+		old Term
+	}
+	var keeps []keep
+	for _, o := range objs {
+		if old, ok := st.vars[o]; ok && !direct[o] {
+			if si := c.eng.Sorts.Info(old.Sort); si != nil && si.Kind == KPtr {
+				keeps = append(keeps, keep{o, old})
+			}
+		}
+	}
+	c.havoc(st, objs)
+	for _, k := range keeps {
+		if nv, ok := st.vars[k.o]; ok && nv.Sort == k.old.Sort {
+			st.Assume(eq(app(nv.Sort+".nonnil", nv.S), app(k.old.Sort+".nonnil", k.old.S)))
+		}
+	}
+}
+
 func (c *FnCtx) havocGhosts(st *State, body ast.Node) {
 	// ghost variables modified by callees inside the loop
 	mods := map[string]bool{}
@@ -747,6 +800,10 @@ func (c *FnCtx) havocGhosts(st *State, body ast.Node) {
 		return true
 	})
 	for _, g := range c.spec.Ghosts {
+		// statements at entry or exit are not inside any loop
+		if g.At == "entry" || g.At == "exit" {
+			continue
+		}
 		if strings.HasPrefix(g.Stmt, "ghost.") {
 			if k := strings.Index(g.Stmt, "="); k > 0 {
 				mods[strings.TrimSpace(g.Stmt[:k])] = true
@@ -808,7 +865,7 @@ func (c *FnCtx) execFor(x *ast.ForStmt, st *State) []Out {
 	if x.Post != nil {
 		mods = append(mods, c.assignedVars(x.Post)...)
 	}
-	c.havoc(st, mods)
+	c.havocIn(st, mods, x.Body)
 	c.havocGhosts(st, x.Body)
 	c.assumeInvariants(st, ls, bodyPos)
 	var outs []Out
@@ -909,7 +966,7 @@ func (c *FnCtx) execRange(x *ast.RangeStmt, st *State) []Out {
 	c.checkInvariants(st, ls, "init", bodyPos)
 	mods := c.assignedVars(x.Body)
 	// range variables assigned by the loop header itself are not havocked here (they are bound per iteration)
-	c.havoc(st, mods)
+	c.havocIn(st, mods, x.Body)
 	c.havocGhosts(st, x.Body)
 	var k Term
 	if isSlice {
@@ -1190,6 +1247,9 @@ func (c *FnCtx) useLemma(st *State, u UseSpec, pos token.Pos) {
 	}
 	_, pnames, _, _ := specParamNames(lem.Decl)
 	args := splitTopCommas(call[k+1 : len(call)-1])
+	if len(args) == 1 && strings.TrimSpace(args[0]) == "" {
+		args = nil
+	}
 	if len(args) != len(pnames) {
 		panic(unsupportedErr{fmt.Sprintf("lemma %s expects %d arguments", name, len(pnames))})
 	}
